@@ -27,6 +27,12 @@ THEOREMS = ['Vakt.C09.decode_no_uid_refused', 'Vakt.C09.decode_type_ignored', 'V
             'Vakt.C09.mongo_compile_failure', 'Vakt.C09.sql_roundtrip', 'Vakt.C09.sql_roundtrip_exact',
             'Vakt.C09.sql_meaning_preserved', 'Vakt.C09.sql_int_uid_comes_back_as_text', 'Vakt.C09.sql_compile_failure']
 EXTRA_IMPORTS = ['Props.C09Codec', 'Props.C09Storage']
+# obligations over what was translated from /repo/vakt/policy.py in this run: Policy.from_json - no uid: refused; `context` wins
+# over the deprecated `rules`; a stored `type` is dropped before the constructor sees it - is the model's fromDoc
+# (lean/Gen/EquivPolicyJson.lean)
+EXTRA_BUILD = ['+Gen.EquivPolicyJson']
+GEN_IMPORTS = ['Gen.EquivPolicyJson']
+GEN_THEOREMS = ['Vakt.GenEquiv.gen_from_json', 'Vakt.GenEquiv.fromDocD_eq', 'Vakt.GenEquiv.translatedPolicyJson_covers']
 FLOOR = {'quick': 300, 'thorough': 5000}
 ASSUMPTIONS = ['the codec theorems (rule_roundtrip, policy_roundtrip) are about the JSON text jsonpickle writes, as modelled in '
                'RuleCodec and compared with the real text on every run; the Mongo document and the SQL row layers on top of '
@@ -342,6 +348,7 @@ def run(ctx):
         if len(out.samples) < 3 and any(True in r for r in m0):
             out.samples.append({'policy': repr(p)[:400], 'probes': len(qs), 'paths': PATHS,
                                 'matching_rows': sum(1 for r in m0 if all(x is True for x in r))})
+    _bare_string_fields(ctx, out, rng)
     _decoding_clauses(ctx, out, rng)
     _codec_correspondence(ctx, out, rng)
     _storage_codec_correspondence(ctx, out, rng)
@@ -652,6 +659,51 @@ def _storage_codec_correspondence(ctx, out, rng):
             f.signature = 'storage-codec:' + kind
             f.weak = True           # the stored representation is not prescribed by the property, only what is read back
             out.failures.append(f)
+
+
+def _bare_string_fields(ctx, out, rng):
+    """a definition field given as one bare string: the policy's elements are its characters (a string is a collection of
+    one-character strings); whatever a persistence path does with it, the policy read back matches the same inquiries"""
+    for _ in range(ctx.budget(6, 120)):
+        text = ''.join(rng.sample('abxyzé*', rng.randint(1, 3)))
+        fld = pick(rng, ['subjects', 'actions', 'resources'])
+        kw = dict(subjects=['a', 'ab'], actions=['a', 'ab'], resources=['a', 'ab'])
+        kw[fld] = text
+        try:
+            obj = Policy(pick(rng, ['u1', 'bare']), effect=pick(rng, ['allow', 'deny']), description='bare', **kw)
+        except Exception:
+            continue
+        vals = sorted(set(list(text) + [text, '', 'a', 'ab']))
+        from vakt.guard import Inquiry
+        qobjs = [Inquiry(**dict(dict(subject='a', action='a', resource='a'), **{fld[:-1]: v})) for v in vals]
+        m0 = meaning(obj, qobjs)
+        for path in PATHS:
+            if path.endswith('+find'):
+                continue
+            out.evaluations += 1
+            out.count('bare-string-field:' + path)
+            desc = {'path': path, 'policy': 'Policy(%s=%r, the other fields [\'a\', \'ab\'])' % (fld, text), 'probed_values': vals}
+            try:
+                back = through(path, obj, qobjs[0], rng)
+            except Exception as e:
+                f = Failure('oracle', desc, '%s: %s' % (type(e).__name__, str(e)[:200]), None,
+                            'writing / reading the policy back raised', 'Vakt.C09.policy_roundtrip_partial')
+                f.signature = 'raised:' + path
+                out.failures.append(f)
+                continue
+            if back is None or not isinstance(back, Policy):
+                continue
+            m1 = meaning(back, qobjs)
+            if m1 != m0:
+                i = next(j for j, (a, b) in enumerate(zip(m0, m1)) if a != b)
+                k = ('KR', 'KX', 'KF', 'KU')[i // len(qobjs)]
+                f = Failure('oracle', desc, [m0[i], m1[i]], None,
+                            'matches differently after the round trip: checker %s, value %r: (actions, subjects, resources, '
+                            'context) %r -> %r' % (k, vals[i % len(qobjs)], m0[i], m1[i]), 'Vakt.C09.policy_roundtrip_partial')
+                f.signature = 'meaning:' + path.split('+')[0]
+                out.failures.append(f)
+                return
+        out.nontriv('bare %s %s' % (fld, text))
 
 
 def _decoding_clauses(ctx, out, rng):
